@@ -467,6 +467,11 @@ class CallMixin:
     # --- str / bytes methods
     def str_startswith(self, recv, lv, args, kw, st, node, exc):
         a = args[0]
+        if isinstance(a.s, Opt) and isinstance(a.s.inner, S._Str):
+            st = self.raise_if(st, a.is_none, "TypeError", node, exc, "startswith(None)")
+            if st is None:
+                return []
+            a = a.s.val(a)
         if isinstance(a.s, Tup):
             return [(st, S.Or(*[V(BOOL, z3.PrefixOf(a.s.get(a, i).t, recv.t)) for i in range(len(a.s.elems))]))]
         if not isinstance(a.s, S._Str):
@@ -475,6 +480,11 @@ class CallMixin:
 
     def str_endswith(self, recv, lv, args, kw, st, node, exc):
         a = args[0]
+        if isinstance(a.s, Opt) and isinstance(a.s.inner, S._Str):
+            st = self.raise_if(st, a.is_none, "TypeError", node, exc, "endswith(None)")
+            if st is None:
+                return []
+            a = a.s.val(a)
         if isinstance(a.s, Tup):
             return [(st, S.Or(*[V(BOOL, z3.SuffixOf(a.s.get(a, i).t, recv.t)) for i in range(len(a.s.elems))]))]
         if not isinstance(a.s, S._Str):
